@@ -92,6 +92,7 @@ class Sched:
         self._tls = _threading.local()
         self.counters = {}
         self.on_step = None          # optional callback(sched) before each choice
+        self.done_when = None        # optional predicate(sched): the run is over when it holds
 
     # ----- called from controlled threads -----
     def cur(self):
@@ -117,6 +118,10 @@ class Sched:
     def note(self, kind, name=None, value=None):
         t = self.cur()
         self.note_for(t, kind, name, value)
+
+    def mark(self, name, value=None):
+        """An annotation in the log (not a yield point), stamped with the virtual time."""
+        self.note_for(self.cur(), 'mark', name, (self.vnow, value))
 
     def note_for(self, t, kind, name=None, value=None):
         self.log.append((self.step, t.label if t is not None else '-', kind, name, value))
@@ -155,6 +160,9 @@ class Sched:
         try:
             while True:
                 if all(t.finished for t in self.threads if t.started):
+                    self.outcome = 'done'
+                    break
+                if self.done_when is not None and self.done_when(self):
                     self.outcome = 'done'
                     break
                 if self.step >= self.max_steps:
@@ -219,7 +227,7 @@ class Sched:
         self.point(('now',))
         s = int(self.vnow) % 86400
         v = (s // 3600, (s % 3600) // 60)
-        self.note('now', None, v)
+        self.note('now', None, (v[0], v[1], self.vnow))
         return _VNow(v[0], v[1])
 
 
@@ -236,16 +244,31 @@ def rr_policy(sched, r):
     return sched.step
 
 
-def prio_policy(order):
+def prio_policy(order, burst=8):
     """Pick the first runnable thread whose label starts with one of the prefixes in `order`
-    (TIME is 'T'); falls back to round robin."""
+    (TIME is 'T').  Fair: a thread that has had `burst` consecutive steps while another choice
+    existed gives way once (a strict priority would let a thread spin between the clock
+    thread's set() and clear() for ever)."""
+    state = {'last': None, 'n': 0}
+
     def pol(sched, r):
+        labs = [t if t == TIME else t.label for t in r]
+        cands = []
         for p in order:
-            for i, t in enumerate(r):
-                lab = t if t == TIME else t.label
-                if lab.startswith(p):
-                    return i
-        return sched.step
+            for i, lab in enumerate(labs):
+                if lab.startswith(p) and i not in cands:
+                    cands.append(i)
+        for i in range(len(r)):
+            if i not in cands:
+                cands.append(i)
+        pick = cands[0]
+        if labs[pick] == state['last'] and state['n'] >= burst and len(cands) > 1:
+            pick = cands[1]
+        if labs[pick] == state['last']:
+            state['n'] += 1
+        else:
+            state['last'], state['n'] = labs[pick], 1
+        return pick
     return pol
 
 
